@@ -1,4 +1,5 @@
 """C12 — Session establishment negotiates a version both peers can actually speak (structural part)."""
+import re
 from vlib import facts as F, thir as T, xmlgrammar as X, absint as A
 from vlib.report import loc_of
 
@@ -199,6 +200,19 @@ def r3_session_id(chk, fx):
         again = [p for p in paths if holds_true(p, "'%s'" % el) and any(k.startswith("variant:«loop:%s" % var) and v == "Some" for k, v in p.assume.items())]
         chk.instance("C12/R3", "a second <%s> is an error (%d paths)" % (el, len(again)), rn, loc_of(t.get("sp")),
                      holds=bool(again) and all(ret_is_err(p) for p in again), key="C12/R3 ServerHello duplicate-%s" % el)
+    # .. and the once-only guard is only as good as what the arm leaves behind: an accepted element fills its slot with Some(..) on
+    # every path that goes on reading (a slot left empty — `slot = parse_optional(..)?` — lets the next such element in as "the first")
+    for el in ("capabilities", "session-id"):
+        took = [p for p in paths if holds_true(p, "'%s'" % el) and p.end == "iter-end" and p.assigns()]
+        loose = []
+        for p in took:
+            for a in p.assigns():
+                v = a[2]
+                if not (A.is_opt(v) and v[2] == "Some"):
+                    loose.append(A.vstr(v)[:80])
+        chk.instance("C12/R3", "an accepted <%s> fills its slot (%d paths)" % (el, len(took)), rn, loc_of(t.get("sp")), holds=bool(took) and not loose,
+                     key="C12/R3 ServerHello accepted-%s-may-leave-slot-empty" % el,
+                     detail=None if not loose else "the slot is given %s: when that is None the once-only guard does not see the element, and a second one is accepted" % loose[0])
     ev = [p for p in paths if p.calls("read_resolved_event")]
     quiet = [p for p in ev if p.end == "iter-end" and not p.assigns()]
     bad = [p for p in quiet if not any(v == "Comment" for k, v in p.assume.items() if k.startswith("variant:"))]
@@ -269,19 +283,52 @@ def r4_context(chk, fx):
         ok = f == {"session_id": ("sym", "A"), "protocol_version": ("sym", "B"), "client_capabilities": ("sym", "C"), "server_capabilities": ("sym", "D")}
         chk.instance("C12/R4", "Context::new stores its arguments in the fields of the same name", "netconf::session::Context::new", None, holds=ok,
                      key="C12/R4 Context::new fields")
-    # OKDOM: Ok(Session) only after hello exchange and negotiation succeeded
-    b = fx.user_coroutine("netconf::session::Session::<T>::new")
-    send = b.calls_to("ClientMsg::send", user_only=True)
-    recv = b.calls_to("ServerMsg::recv", user_only=True)
-    if len(send) != 1 or len(recv) != 1:
-        raise F.AnchorLost("Session::new: hello send/recv call sites")
-    pt = tuple(F.PASS_THROUGH) + ("maybe_done", "poll_fn")
-    oks = b.ok_aggs()
-    for nm, c in (("hello send", send[0]), ("hello receive", recv[0])):
-        e = b.ok_edge_of(c, pass_through=pt)
-        ok = e is not None and all(b.edge_dominates(b._switch_block_of(e[0]), e[1], bi) for (bi, si, s2) in oks) and bool(oks)
-        chk.instance("C12/R4", "Ok(Session) only through the success edge of the %s" % nm, b.name, c.loc(), holds=ok,
-                     key="C12/R4 Session::new Ok-not-okdom-by %s" % nm)
+    # Ok(Session) only after both halves of the hello exchange succeeded — on explored paths, whatever joins the two futures:
+    # try_join! (its Ok means every future's Ok), join! followed by a look at each component, or two plain awaits
+    def hook(fn, args, node, interp):
+        s2 = T.short(fn, 2)
+        if s2 == "ClientMsg::send":
+            return ("term", "async-ready", (("sym", "SENT"),))
+        if s2 == "ServerMsg::recv":
+            return ("term", "async-ready", (("sym", "RECEIVED"),))
+        if s2 in ("poll_fn::poll_fn", "future::poll_fn") or fn.endswith("::poll_fn"):
+            interp.trace.append(("joined", ((node.get("sp") or {}).get("m") or "").split("::")[-1]))
+        return None
+    it2 = A.Interp(fx, hook=hook, crates=("netconf",), max_paths=2000)
+    it2.model_iterators = False
+    paths2 = [p for p in it2.explore(un) if p.end != "abort"]
+    n_ok = 0
+    for p in paths2:
+        if not (A.is_res(p.ret) and p.ret[2] == "Ok"):
+            continue
+        n_ok += 1
+        # order of the joined futures = order in which they were wrapped for the join
+        order = []
+        for e in p.trace:
+            if e[0] == "call" and T.short(e[1], 2).endswith("maybe_done") and e[2]:
+                w = "SENT" if "«SENT»" in A.vstr(e[2][0]) else "RECEIVED" if "«RECEIVED»" in A.vstr(e[2][0]) else "?"
+                order.append(w)
+        macro = [e[1] for e in p.trace if e[0] == "joined"]
+        succeeded = set()
+        for k, v in p.assume.items():
+            if not k.startswith("variant:") or v != "Ok":
+                continue
+            key = k[8:]
+            if key.endswith("async-ready(«SENT»).await"):
+                succeeded.add("SENT")
+            elif key.endswith("async-ready(«RECEIVED»).await"):
+                succeeded.add("RECEIVED")
+            elif "poll_fn" in key and key.endswith(").await") and macro[:1] == ["try_join"]:
+                succeeded |= set(order)          # try_join!: Ok((..)) only if every future returned Ok
+            elif "poll_fn" in key and macro[:1] == ["join"]:
+                m = re.search(r"\)\.await\.(\d+)$", key)
+                if m and int(m.group(1)) < len(order):
+                    succeeded.add(order[int(m.group(1))])
+        for what, nm in (("SENT", "hello send"), ("RECEIVED", "hello receive")):
+            chk.instance("C12/R4", "Ok(Session) only on a path on which the %s succeeded" % nm, un, loc_of(t.get("sp")), holds=what in succeeded,
+                         key="C12/R4 Session::new Ok-not-okdom-by %s" % nm,
+                         detail=None if what in succeeded else "futures joined: %s by %s; succeeded on this path: %s" % (order, macro, sorted(succeeded)))
+    chk.floor("C12/R4 Session::new Ok paths (hello exchange)", n_ok, 1)
     # accessors report the stored values
     for acc in ("session_id", "protocol_version", "client_capabilities", "server_capabilities"):
         tb = fx.thir_body("netconf::session::Context::" + acc)
